@@ -8,7 +8,7 @@ from .. import calg, jmodel as J
 from ..cskel import Skel, strip_comments
 from ..pymodel import package
 from ..ratemodel import model as ratemodel, SELF
-from ..valueflow import Flow, lower, show, simp, subst, walk
+from ..valueflow import Flow, lower, show, simp, split_guard, subst, walk
 
 EXPLANATION = (
     "From the registration tables Reg(K) (ordered name/symbol/kind/value, extracted from the __init__ chains of the 6 reaction classes, 5 grain "
@@ -67,11 +67,15 @@ class Regs(dict):
     def __init__(self):
         super().__init__()
         self.names, self.opaque = {}, set()
+        self.header_text = ""          # the two headers every unit includes, as text (includes resolved)
 
     def judge(self, ctx, ok, rule, key, where, msg, **kw):
         # (a fixed IDX_<species> is undefined whatever is registered)
+        m = re.match(r"`(\w+)` is not declared by any registry", msg) if not ok else None
         if not ok and self.opaque and "names a fixed species" not in msg:
             ctx.unrec(rule, key, where, f"{msg} -- but registrations of {sorted(self.opaque)} are not understood, so an undeclared identifier cannot be concluded")
+        elif m and re.search(r"\b" + re.escape(m.group(1)) + r"\b", self.header_text):
+            ctx.unrec(rule, key, where, f"{msg} -- but a header every unit includes mentions `{m.group(1)}` in a way that is not read as a declaration")
         else:
             ctx.check(ok, rule, key, where, msg, **kw)
 
@@ -96,6 +100,25 @@ def tables(rm, ctx=None):
                               "cannot read the (symbol, value, kind) triple of this registration: which C identifier it declares is unknown")
                 continue
             regs[c].append(s)
+    # a constructor that mentions `register` more often than registrations were read off it (the method bound to a local, handed to
+    # map(), called inside a comprehension / lambda) registers names this table does not have
+    from ..core import AnalysisError
+    for c in REACTION_CLASSES + GRAIN_CLASSES + ["ThermalProcess"]:
+        dc, fn = rm.pkg.resolve(c, "__init__")
+        if fn is None or dc != c:
+            continue
+        try:
+            fx = rm.pkg.expanded(dc, "__init__", keep=("register", "unregister"))
+        except AnalysisError:
+            fx = fn
+        written = sum(1 for x in ast.walk(fx) if (isinstance(x, ast.Attribute) and x.attr == "register") or (isinstance(x, ast.Name) and x.id == "register"))
+        direct = [x for x in ast.walk(fx) if isinstance(x, ast.Attribute) and x.attr == "_symbols" and isinstance(x.ctx, ast.Load)]
+        read = sum(1 for r in rm.registry(c) if r["cls"] == dc and r["op"] == "register")
+        if written > read or direct:
+            regs.opaque.add(c)
+            if ctx is not None:
+                ctx.unrec("R1", f"{c}.__init__:registrations", (rm.pkg.cls(c).file, fn.lineno), f"the constructor mentions `register` {written} times" + (" and the symbol table itself" if direct else "") +
+                          f" but only {read} registrations could be read off it: some names are registered in a way that is not understood")
     return regs
 
 
@@ -137,7 +160,20 @@ def check(ctx):
     ctx.stats["registered_symbols"] = nreg
     ctx.floor("R2", "registrations", nreg, 120)
     protos, defs, consts, cdefs = declared_everywhere(ctx)
-    phys_text, const_text = strip_comments(ctx.tree.read(PHYS_C)), strip_comments(ctx.tree.read(CONST_C))
+    # (as written and with includes / macros resolved)
+    phys_text = strip_comments(ctx.tree.read(PHYS_C)) + "\n" + strip_comments(J.text_of(J.flatten(ctx.tree, PHYS_C, {}), lambda it: "SPEC"))
+    const_text = strip_comments(ctx.tree.read(CONST_C)) + "\n" + strip_comments(J.text_of(J.flatten(ctx.tree, CONST_C, {}), lambda it: "SPEC"))
+    regs.header_text = strip_comments(J.text_of(J.flatten(ctx.tree, PHYS_H, {}), lambda it: "SPEC")) + "\n" + strip_comments(J.text_of(J.flatten(ctx.tree, CONST_H, {}), lambda it: "SPEC")) \
+        + "\n" + strip_comments(ctx.tree.read(PHYS_H)) + "\n" + strip_comments(ctx.tree.read(CONST_H))
+    # the declarations every unit sees, as far as they are read: fewer than the headers really hold means some are written in a way that
+    # is not understood, and "declared nowhere" cannot be concluded
+    plain_consts = [c for c in consts if "SPEC" not in c and "Table" not in c]
+    ctx.floor("R2", "physics prototypes", len(protos), 17)
+    ctx.floor("R2", "physical constants declared extern", len(plain_consts), 10)
+    if len(protos) < 17:
+        regs.opaque.add("naunet_physics.h")
+    if len(plain_consts) < 10:
+        regs.opaque.add("naunet_constants.h")
     for p in sorted(protos):
         # (the name written before a `(` somewhere in the .cpp but not recognised as a function definition: not understood, not missing)
         if p in defs or not re.search(r"\b" + re.escape(p) + r"\s*\(", phys_text):
@@ -792,9 +828,18 @@ def _r5(ctx, pkg):
         def _res(name, _pkg=pkg):
             _, g_ = _pkg.resolve("Component", name)
             return g_ if name.startswith("_") and not name.startswith("__") else None
-        for rf in Flow(f, CF, resolver=_res).facts:
+        pflow = Flow(f, CF, resolver=_res)
+        for rf in pflow.facts:
             if rf.kind == "return" and rf.value:
                 v = got(simp(rf.value))
+                if v[0] == "acc":
+                    # the mapping filled by an explicit loop (`out[sym.symbol] = sym.value` under `if sym.type == ..`, or after
+                    # `if sym.type != ..: continue`): the same pairs, conditions and source as the comprehension it spells out
+                    stores_ = [sf for sf in pflow.facts if sf.kind == "store" and sf.target == v[1] and sf.index is not None and sf.value is not None]
+                    atoms = [sg for sf in stores_ for gd in sf.guards for sg in split_guard(gd)]
+                    if stores_ and all(pol for _, pol in atoms) and not [bf for bf in pflow.facts if bf.kind == "break"]:
+                        v = ("tuple", tuple(("tuple", (got(simp(sf.index)), got(simp(sf.value)))) for sf in stores_) + tuple(got(simp(c_)) for c_, _ in atoms)
+                             + tuple(got(simp(lp_.iter)) for sf in stores_ for lp_ in sf.loops))
                 seen_.append(show(v)[:140])
                 # whatever the nesting / spelling (comprehension over .items() or .values(), a filtering helper, dict(),
                 # OrderedDict(), a folded loop, map/filter, attrgetter): pairs (x.symbol, x.value), one filter x.type == VariableType.<kind>,
@@ -802,7 +847,7 @@ def _r5(ctx, pkg):
                 pairs = [x for x in walk(v) if isinstance(x, tuple) and len(x) == 2 and x[0] == "tuple" and len(x[1]) == 2
                          and x[1][0][0] == "attr" and x[1][0][2] == "symbol" and x[1][1][0] == "attr" and x[1][1][2] == "value" and x[1][0][1] == x[1][1][1]]
                 tests = [x for x in walk(v) if isinstance(x, tuple) and len(x) == 3 and x[0] == "cmp"]
-                type_tests = [x for x in tests if x[1] == ("Eq",) and x[2][0][0] == "attr" and x[2][0][2] == "type" and x[2][1][0] == "attr" and x[2][1][1] == ("global", "VariableType")]
+                type_tests = [x for x in tests if x[1] in (("Eq",), ("Is",)) and x[2][0][0] == "attr" and x[2][0][2] == "type" and x[2][1][0] == "attr" and x[2][1][1] == ("global", "VariableType")]
                 kind_tests = [x for x in type_tests if x[2][1][2] == kind]
                 src = any(isinstance(x, tuple) and len(x) == 5 and x[0] == "meth" and x[1] == ("attr", SELF, "_symbols") and x[2] in ("items", "values") for x in walk(v))
                 good = len(pairs) >= 1 and len(kind_tests) >= 1 and len(tests) == len(kind_tests) and src
@@ -1012,14 +1057,46 @@ def _collect_rule(ctx, pkg):
         elif d[0] == "call" and d[1] == ("global", "filter") and len(d[2]) == 2 and d[2][1] == COMPS:
             evidence.append(f"{what} visits a filtered selection of `{ps[0]}`: {show(d)[:80]}")
         return False
+    def nonempty(c):
+        """(X, sense) when the condition `c` only asks whether X -- the component list, or one component's mapping -- has any items
+        (sense: c is true exactly when it has): skipping what is empty merges the same items.  None for any other condition"""
+        c = simp(c)
+        if c == COMPS or (c[0] == "call" and c[1] == ("global", "getattr") and len(c[2]) == 2 and c[2][1] == VT and c[2][0][0] == "elem" and c[2][0][1] == COMPS):
+            return c, True
+        if c[0] == "unop" and c[1] == "Not":
+            r = nonempty(c[2])
+            return None if r is None else (r[0], not r[1])
+        if c[0] == "call" and c[1] in (("global", "len"), ("global", "bool")) and len(c[2]) == 1 and not c[3]:
+            return nonempty(c[2][0])
+        if c[0] == "meth" and c[2] in ("items", "keys", "values") and not c[3] and not c[4]:
+            return nonempty(c[1])
+        if c[0] == "cmp" and len(c[1]) == 1 and len(c[2]) == 2 and c[2][1] in (("const", None), ("const", 0)):
+            r = nonempty(c[2][0])
+            if r is not None and c[1][0] in ("Is", "Eq"):
+                return r[0], not r[1]
+            if r is not None and c[1][0] in ("IsNot", "NotEq", "Gt"):
+                return r
+        return None
+
+    def selecting(guards, merged: bool):
+        """the guards that are more than `.. has items` (for a merge) / `.. is empty` (for a skip)"""
+        out = []
+        for gd in guards:
+            for c, pol in split_guard(gd):
+                r = nonempty(c)
+                if r is None or (r[1] == bool(pol)) != merged:
+                    out.append(c)
+        return out
     if acc is not None:
         st = [f for f in fl.facts if f.kind == "store" and f.target == acc]
         up = [f for f in fl.facts if f.kind == "mutate" and f.target == acc and f.op == "update"]
         brk = [f for f in fl.facts if f.kind in ("break", "continue") and f.loops]
         for f in st + up:
-            if f.guards:
-                evidence.append(f"the merge at line {f.line} happens only under {[show(g)[:50] for g, _ in f.guards]}")
+            if selecting(f.guards, True):
+                evidence.append(f"the merge at line {f.line} happens only under {[show(g)[:50] for g in selecting(f.guards, True)]}")
         for f in brk:
+            if f.kind == "continue" and f.guards and not selecting(f.guards, False):
+                continue          # (`if not var_dict: continue`: nothing to merge from an empty mapping)
             evidence.append(f"`{f.kind}` at line {f.line} skips components / items" + (f" when {[show(g)[:50] for g, _ in f.guards]}" if f.guards else ""))
         if len(st) == 1 and not up and len(st[0].loops) == 2:
             l1, l2 = st[0].loops
@@ -1143,6 +1220,59 @@ def _tri(test, attrs):
     return None
 
 
+def _leaves(body):
+    """does this statement list always leave the enclosing block -- its last statement is return / raise / continue / break, or an
+    if / else both arms of which leave?"""
+    if not body:
+        return False
+    last = body[-1]
+    if isinstance(last, (ast.Return, ast.Raise, ast.Continue, ast.Break)):
+        return True
+    if isinstance(last, ast.If) and last.orelse:
+        return _leaves(last.body) and _leaves(last.orelse)
+    return False
+
+
+def _earlier_exits(par, x):
+    """guard clauses: the conditions under which statement `x` of a block of `par` is reached because an EARLIER `if` of the same
+    block left it (`if t: return ""` before x: x runs only when t is false) -> [(test, polarity)]"""
+    out = []
+    for fld in ("body", "orelse", "finalbody"):
+        lst = getattr(par, fld, None)
+        if isinstance(lst, list) and any(s_ is x for s_ in lst):
+            for s_ in lst:
+                if s_ is x:
+                    break
+                if isinstance(s_, ast.If):
+                    a, b = _leaves(s_.body), _leaves(s_.orelse)
+                    if a and not b:
+                        out.append((s_.test, False))
+                    elif b and not a:
+                        out.append((s_.test, True))
+    return out
+
+
+def _single_assignments(fn):
+    """{local name: the expression it is bound to} for the locals of a function that are stored exactly once, by a plain assignment
+    (`lo = r.temp_min`, `lo, hi = r.temp_min, r.temp_max`): a test on such a name is the test on that expression"""
+    stores, vals = {}, {}
+    for n in ast.walk(fn):
+        if isinstance(n, ast.Name) and isinstance(n.ctx, (ast.Store, ast.Del)):
+            stores[n.id] = stores.get(n.id, 0) + 1
+        elif isinstance(n, ast.arg):
+            stores[n.arg] = stores.get(n.arg, 0) + 1
+    for st in ast.walk(fn):
+        if isinstance(st, ast.Assign) and len(st.targets) == 1:
+            t, v = st.targets[0], st.value
+            if isinstance(t, ast.Name):
+                vals[t.id] = v
+            elif isinstance(t, ast.Tuple) and isinstance(v, ast.Tuple) and len(t.elts) == len(v.elts) and all(isinstance(e, ast.Name) for e in t.elts) \
+                    and not any(isinstance(e, ast.Starred) for e in v.elts):
+                for e, w in zip(t.elts, v.elts):
+                    vals[e.id] = w
+    return {k: v for k, v in vals.items() if stores.get(k) == 1}
+
+
 def _r11(ctx, pkg, regs, protos, consts, universal):
     """The renderer (`_assign_rates` and what it calls) writes C text of its own around each rate expression -- today the temperature
     window `if (Tgas>=.. && Tgas<..) { .. }`.  Those statements are pasted into EvalRates (reactions: the identifier must be one every
@@ -1180,52 +1310,99 @@ def _r11(ctx, pkg, regs, protos, consts, universal):
         return const_getattr(g2)
     handed_on = set()          # literal arguments accounted for inside the specialised callee
     scope, todo = [], [root]
+    sites = {}                 # id(function of the scope) -> [the expressions that call / mention it] (the root has none)
     while todo and len(scope) < 40:
         f = todo.pop()
         if any(f is g for g in scope):
             continue
         scope.append(f)
+        called = set()
         for c in ast.walk(f):
             if not isinstance(c, ast.Call):
                 continue
             fn_ = c.func
+            called.add(id(fn_))
+            g2 = None
             if isinstance(fn_, ast.Attribute) and isinstance(fn_.value, ast.Name) and fn_.value.id in ("self", "cls", "TemplateLoader"):
                 g = pkg.resolve("TemplateLoader", fn_.attr)[1]
                 if g is not None:
-                    todo.append(special(g, c, True))
+                    g2 = special(g, c, True)
             elif isinstance(fn_, ast.Name) and (TLOADER, fn_.id) in pkg.functions:
-                todo.append(special(pkg.functions[(TLOADER, fn_.id)], c, False))
+                g2 = special(pkg.functions[(TLOADER, fn_.id)], c, False)
             elif isinstance(fn_, ast.Name) and fn_.id in mclasses:
                 todo += [m for m in mclasses[fn_.id].body if isinstance(m, ast.FunctionDef)]
+            if g2 is not None:
+                todo.append(g2)
+                sites.setdefault(id(g2), []).append(c)
+        # a helper handed on by name (`map(self._window, reactions)`, `key=_window`) runs too
+        for c in ast.walk(f):
+            if id(c) in called or not isinstance(getattr(c, "ctx", None), ast.Load):
+                continue
+            g = None
+            if isinstance(c, ast.Attribute) and isinstance(c.value, ast.Name) and c.value.id in ("self", "cls", "TemplateLoader"):
+                g = pkg.resolve("TemplateLoader", c.attr)[1]
+                if g is not None and any(ast.unparse(d).split(".")[-1] in ("property", "cached_property", "setter") for d in g.decorator_list):
+                    g = None
+            elif isinstance(c, ast.Name) and (TLOADER, c.id) in pkg.functions:
+                g = pkg.functions[(TLOADER, c.id)]
+            if g is not None and g is not root:
+                todo.append(g)
+                sites.setdefault(id(g), []).append(c)
     # what a thermal process is: constants / constructor parameters its __init__ stores, and the instances of the package
     tp = pkg.cls("ThermalProcess")
     init = tp.methods.get("__init__")
     fixed, fed, stores = {}, {}, {}
+    # constants of the module / the class body, bound once (`UNLIMITED = -1.0`)
+    tmod = pkg.modules.get(tp.file)
+    mstores = {}
+    for nd in ast.walk(tmod) if tmod is not None else []:
+        if isinstance(nd, ast.Name) and isinstance(nd.ctx, (ast.Store, ast.Del)):
+            mstores[nd.id] = mstores.get(nd.id, 0) + 1
+    mconst = {st.targets[0].id: st.value for st in (tmod.body if tmod is not None else []) if isinstance(st, ast.Assign) and len(st.targets) == 1
+              and isinstance(st.targets[0], ast.Name) and mstores.get(st.targets[0].id) == 1}
+
+    def const_of(e, depth=0):
+        """the constant an expression of ThermalProcess stands for (a literal, a once-bound module constant, a class attribute), else `_tri`"""
+        if isinstance(e, ast.Constant) and not isinstance(e.value, str):
+            return e.value
+        if isinstance(e, ast.UnaryOp) and isinstance(e.op, ast.USub):
+            v = const_of(e.operand, depth)
+            return -v if v is not _tri and isinstance(v, (int, float)) and not isinstance(v, bool) else _tri
+        if depth < 4 and isinstance(e, ast.Name) and e.id in mconst:
+            return const_of(mconst[e.id], depth + 1)
+        if depth < 4 and isinstance(e, ast.Attribute) and isinstance(e.value, ast.Name) and e.value.id in ("self", "cls", "ThermalProcess") and e.attr in tp.attrs \
+                and e.attr not in stores:
+            return const_of(tp.attrs[e.attr], depth + 1)
+        return _tri
     if init is not None:
         ctx.saw(TPROC, "ThermalProcess.__init__")
         for m in tp.methods.values():
             for n in ast.walk(m):
                 if isinstance(n, ast.Attribute) and isinstance(n.ctx, ast.Store) and isinstance(n.value, ast.Name) and n.value.id == "self":
                     stores[n.attr] = stores.get(n.attr, 0) + 1
-        params = [a.arg for a in init.args.args[1:]]
+        params = [a.arg for a in init.args.args[1:]] + [a.arg for a in init.args.kwonlyargs]
         for st in init.body:
-            if isinstance(st, ast.Assign) and len(st.targets) == 1 and isinstance(st.targets[0], ast.Attribute) and isinstance(st.targets[0].value, ast.Name) \
-                    and st.targets[0].value.id == "self" and stores.get(st.targets[0].attr) == 1:
-                v = st.value
-                if isinstance(v, ast.UnaryOp) and isinstance(v.op, ast.USub) and isinstance(v.operand, ast.Constant):
-                    fixed[st.targets[0].attr] = -v.operand.value
-                elif isinstance(v, ast.Constant):
-                    fixed[st.targets[0].attr] = v.value
-                elif isinstance(v, ast.Name) and v.id in params:
-                    fed[st.targets[0].attr] = v.id
+            # `self.a = v`, `self.a = self.b = v`, `self.a, self.b = v, w`
+            pairs = []
+            if isinstance(st, ast.Assign):
+                for t in st.targets:
+                    if isinstance(t, ast.Tuple) and isinstance(st.value, ast.Tuple) and len(t.elts) == len(st.value.elts):
+                        pairs += list(zip(t.elts, st.value.elts))
+                    else:
+                        pairs.append((t, st.value))
+            elif isinstance(st, ast.AnnAssign) and st.value is not None:
+                pairs.append((st.target, st.value))
+            for t, v in pairs:
+                if isinstance(t, ast.Attribute) and isinstance(t.value, ast.Name) and t.value.id == "self" and stores.get(t.attr) == 1:
+                    c_ = const_of(v)
+                    if c_ is not _tri:
+                        fixed[t.attr] = c_
+                    elif isinstance(v, ast.Name) and v.id in params:
+                        fed[t.attr] = v.id
     # ... or that the class body fixes (`temp_min = -1.0`) and no method stores
     for a_, node_ in tp.attrs.items():
-        v = node_
-        if a_ not in fixed and a_ not in fed and not (init is not None and a_ in stores):
-            if isinstance(v, ast.UnaryOp) and isinstance(v.op, ast.USub) and isinstance(v.operand, ast.Constant):
-                fixed[a_] = -v.operand.value
-            elif isinstance(v, ast.Constant):
-                fixed[a_] = v.value
+        if a_ not in fixed and a_ not in fed and not (init is not None and a_ in stores) and const_of(node_) is not _tri:
+            fixed[a_] = const_of(node_)
     # attributes of thermal processes assigned from outside the class make their value unknown
     outside = {n.attr for f_, m in pkg.modules.items() for n in ast.walk(m) if isinstance(n, ast.Attribute) and isinstance(n.ctx, ast.Store)
                and not (isinstance(n.value, ast.Name) and n.value.id == "self") and n.attr in set(fixed) | set(fed)}
@@ -1259,92 +1436,180 @@ def _r11(ctx, pkg, regs, protos, consts, universal):
     if lists and all(t is not None and "reactions" in t for t in lists):
         tdecl |= set(universal)
     rdecl = set(universal) | CMATH | protos | consts | {"y", "k"}
-    parents = {}
+    parents, owner = {}, {}
     n = 0
     for f in scope:
         for p_ in ast.walk(f):
+            owner[id(p_)] = f
             for ch in ast.iter_child_nodes(p_):
                 parents[id(ch)] = p_
-        for node in ast.walk(f):
-            if not (isinstance(node, ast.Constant) and isinstance(node.value, str)):
-                continue
-            ids = [w for w in re.findall(r"[A-Za-z_]\w*", node.value) if w not in _C_WORDS]
-            if not ids or id(node) in handed_on:
-                continue
-            # where the text stands: not a docstring / message, and under which conditions
-            guards, x, skip = [], node, False
-            while id(x) in parents:
-                par = parents[id(x)]
-                if isinstance(par, ast.Expr) and par.value is x:
-                    skip = True       # docstring / bare string
-                if isinstance(par, (ast.Raise, ast.Assert)) or (isinstance(par, ast.Call) and ast.unparse(par.func).split(".")[0] in ("logging", "logger", "warnings", "print")):
+    locals_of = {id(f): _single_assignments(f) for f in scope}
+
+    def as_written(test, f):
+        """the test with the function's once-assigned locals replaced by what they stand for (`lo = r.temp_min; if lo > 0`)"""
+        env = locals_of.get(id(f)) or {}
+        for _ in range(3):
+            if not any(isinstance(x_, ast.Name) and x_.id in env for x_ in ast.walk(test)):
+                break
+            test = _Subst(dict(env)).visit(copy.deepcopy(test))
+        return test
+
+    def conditions(node, depth=0):
+        """-> (guards [(test, polarity)] under which `node` is evaluated, skip: it is not output text at all, complete: every way into
+        the enclosing function was followed).  Guards: enclosing `if` statements / conditional expressions / comprehension conditions /
+        `and`-`or` operands, guard clauses that left the block earlier, and -- for a helper with ONE call site -- the same at that site"""
+        guards, x, skip, complete = [], node, False, True
+        while id(x) in parents:
+            par = parents[id(x)]
+            if isinstance(par, ast.Expr) and par.value is x and isinstance(x, (ast.Constant, ast.JoinedStr)):
+                skip = True       # docstring / bare string
+            if isinstance(par, (ast.Raise, ast.Assert)) or (isinstance(par, ast.Call) and ast.unparse(par.func).split(".")[0] in ("logging", "logger", "warnings", "print")):
+                skip = True
+            if isinstance(par, ast.JoinedStr) and not any(v is x for v in par.values):
+                skip = True       # a format spec
+            if isinstance(par, ast.FormattedValue) and depth == 0:
+                skip = True       # text inside a replacement field (a dict key, a separator argument)
+            if isinstance(par, ast.Call) and x is not par.func and depth == 0:
+                # an argument: text only when handed to str.join / str.format / a list being built, or to a function of this scope
+                fn_ = par.func
+                local = (isinstance(fn_, ast.Attribute) and isinstance(fn_.value, ast.Name) and fn_.value.id in ("self", "cls", "TemplateLoader") and pkg.resolve("TemplateLoader", fn_.attr)[1] is not None) \
+                    or (isinstance(fn_, ast.Name) and ((TLOADER, fn_.id) in pkg.functions or fn_.id in mclasses))
+                if not (local or (isinstance(fn_, ast.Attribute) and fn_.attr in ("join", "format", "append", "extend", "insert"))
+                        or (isinstance(fn_, ast.Name) and fn_.id in ("list", "tuple", "filter", "str"))):
                     skip = True
-                if isinstance(par, ast.JoinedStr) and not any(v is x for v in par.values):
-                    skip = True       # a format spec
-                if isinstance(par, ast.FormattedValue):
-                    skip = True       # text inside a replacement field (a dict key, a separator argument)
-                if isinstance(par, ast.Call) and x is not par.func:
-                    # an argument: text only when handed to str.join / str.format / a list being built, or to a function of this scope
-                    fn_ = par.func
-                    local = (isinstance(fn_, ast.Attribute) and isinstance(fn_.value, ast.Name) and fn_.value.id in ("self", "cls", "TemplateLoader") and pkg.resolve("TemplateLoader", fn_.attr)[1] is not None) \
-                        or (isinstance(fn_, ast.Name) and ((TLOADER, fn_.id) in pkg.functions or fn_.id in mclasses))
-                    if not (local or (isinstance(fn_, ast.Attribute) and fn_.attr in ("join", "format", "append", "extend", "insert"))
-                            or (isinstance(fn_, ast.Name) and fn_.id in ("list", "tuple", "filter", "str"))):
-                        skip = True
-                if (isinstance(par, ast.Subscript) and x is par.slice) or (isinstance(par, ast.Compare)) or (isinstance(par, ast.Dict) and any(x is k for k in par.keys)):
-                    skip = True       # a key / an operand of a test
-                if isinstance(par, ast.IfExp) and x is not par.test:
-                    guards.append((par.test, x is par.body))
-                elif isinstance(par, ast.If) and x is not par.test:
-                    guards.append((par.test, any(x is b for b in par.body)))
-                elif isinstance(par, ast.comprehension) and x is not par.iter and x is not par.target:
-                    pass
-                elif isinstance(par, (ast.ListComp, ast.GeneratorExp, ast.SetComp, ast.DictComp)):
-                    for g in par.generators:
-                        guards += [(t, True) for t in g.ifs if t is not x]
-                x = par
-            if skip:
+            if depth == 0 and ((isinstance(par, ast.Subscript) and x is par.slice) or (isinstance(par, ast.Compare)) or (isinstance(par, ast.Dict) and any(x is k for k in par.keys))):
+                skip = True       # a key / an operand of a test
+            f_ = owner.get(id(par))
+            if isinstance(par, ast.IfExp) and x is not par.test:
+                guards.append((as_written(par.test, f_), x is par.body))
+            elif isinstance(par, ast.If) and x is not par.test:
+                guards.append((as_written(par.test, f_), any(x is b for b in par.body)))
+            elif isinstance(par, ast.BoolOp) and not any(x is v for v in par.values[:1]):
+                # `a and TEXT` is evaluated when a holds, `a or TEXT` when it does not
+                for v in par.values:
+                    if v is x:
+                        break
+                    guards.append((as_written(v, f_), isinstance(par.op, ast.And)))
+            elif isinstance(par, ast.comprehension) and x is not par.iter and x is not par.target:
+                pass
+            elif isinstance(par, (ast.ListComp, ast.GeneratorExp, ast.SetComp, ast.DictComp)):
+                for g in par.generators:
+                    guards += [(as_written(t, f_), True) for t in g.ifs if t is not x]
+            guards += [(as_written(t, f_), pol) for t, pol in _earlier_exits(par, x)]
+            x = par
+        # x is a function of the scope: the conditions under which it is called
+        if x is not root:
+            at = sites.get(id(x), [])
+            if len(at) == 1 and depth < 6:
+                g_, _, c_ = conditions(at[0], depth + 1)
+                guards += g_
+                complete = complete and c_
+            else:
+                complete = False
+        return guards, skip, complete
+    def message_only(f, node):
+        """the text is assigned to a local that is only ever handed to raise / logging / warnings / print: a message, not output"""
+        x = node
+        while id(x) in parents and not isinstance(x, ast.stmt):
+            x = parents[id(x)]
+        if not (isinstance(x, ast.Assign) and len(x.targets) == 1 and isinstance(x.targets[0], ast.Name)):
+            return False
+        loads = [y for y in ast.walk(f) if isinstance(y, ast.Name) and isinstance(y.ctx, ast.Load) and y.id == x.targets[0].id]
+
+        def in_message(y):
+            while id(y) in parents:
+                y = parents[id(y)]
+                if isinstance(y, (ast.Raise, ast.Assert)) or (isinstance(y, ast.Call) and ast.unparse(y.func).split(".")[0] in ("logging", "logger", "warnings", "print")):
+                    return True
+            return False
+        return bool(loads) and all(in_message(y) for y in loads)
+    # tests the scope makes on the window attributes (whether or not they are seen to govern a given text)
+    window_attrs = set(fixed) | set(fed)
+    window_tests = []
+    for f in scope:
+        for t in ast.walk(f):
+            tests_ = [t.test] if isinstance(t, (ast.If, ast.IfExp, ast.While)) else list(t.ifs) if isinstance(t, ast.comprehension) else [t] if isinstance(t, (ast.Compare, ast.BoolOp)) else []
+            if any(isinstance(a, ast.Attribute) and a.attr in window_attrs for t_ in tests_ for a in ast.walk(as_written(t_, f))):
+                window_tests.append(t)
+    # literal texts of the module / the class, used by name
+    named = {}
+    for st in mod.body + list(tl.node.body):
+        if isinstance(st, ast.Assign) and len(st.targets) == 1 and isinstance(st.targets[0], ast.Name) and isinstance(st.value, ast.Constant) and isinstance(st.value.value, str):
+            named[st.targets[0].id] = None if st.targets[0].id in named else st.value
+    named = {k: v for k, v in named.items() if v is not None}
+    texts = []          # (function, node standing for the text, the text, certainly output text)
+    for f in scope:
+        shadowed = {a.arg for a in ast.walk(f) if isinstance(a, ast.arg)} | {x_.id for x_ in ast.walk(f) if isinstance(x_, ast.Name) and isinstance(x_.ctx, (ast.Store, ast.Del))}
+        for node in ast.walk(f):
+            if isinstance(node, ast.Constant) and isinstance(node.value, str):
+                par = parents.get(id(node))
+                fmt = (isinstance(par, ast.Attribute) and par.attr == "format" and isinstance(parents.get(id(par)), ast.Call) and parents[id(par)].func is par) \
+                    or (isinstance(par, ast.BinOp) and isinstance(par.op, ast.Mod) and par.left is node)
+                texts.append((f, node, node.value, isinstance(par, ast.JoinedStr) or fmt))
+            elif isinstance(node, ast.Name) and isinstance(node.ctx, ast.Load) and node.id in named and node.id not in shadowed:
+                texts.append((f, node, named[node.id].value, False))
+            elif isinstance(node, ast.Attribute) and isinstance(node.ctx, ast.Load) and isinstance(node.value, ast.Name) and node.value.id in ("self", "cls", "TemplateLoader") \
+                    and node.attr in named and any(st.targets[0].id == node.attr for st in tl.node.body if isinstance(st, ast.Assign) and isinstance(st.targets[0], ast.Name)):
+                texts.append((f, node, named[node.attr].value, False))
+    for f, node, value, is_text in texts:
+        ids = [w for w in re.findall(r"[A-Za-z_]\w*", value) if w not in _C_WORDS]
+        if not ids or id(node) in handed_on:
+            continue
+        # where the text stands: not a docstring / message, and under which conditions
+        guards, skip, complete = conditions(node)
+        if skip:
+            continue
+        if message_only(f, node):
+            continue
+        used = {a.attr for t, _ in guards for a in ast.walk(t) if isinstance(a, ast.Attribute)}
+        # is this recognisably the renderer's temperature window -- governed by a test of a window attribute, or formatting one?
+        fstr = parents.get(id(node)) if isinstance(parents.get(id(node)), ast.JoinedStr) else None
+        pasted = {a.attr for v in (fstr.values if fstr is not None else []) if isinstance(v, ast.FormattedValue) for a in ast.walk(as_written(v.value, f)) if isinstance(a, ast.Attribute)}
+        window = bool((used | pasted) & window_attrs)
+        for w in ids:
+            n += 1
+            key = f"{f.name}:`{w}` in {value.strip()[:24]!r}"
+            where = (TLOADER, node.lineno)
+            if w not in rdecl:
+                if is_text and window:
+                    regs.judge(ctx, False, "R11", key + ":reactions", where, f"`{w}` is written by the renderer into the rate statements of EvalRates but is not a symbol every reaction class registers")
+                elif is_text or w not in tdecl:
+                    # (some text of a function the renderer runs: whether it ends up around a rate is not known)
+                    ctx.unrec("R11", key + ":reactions", where, f"the string {value[:30]!r} may be text the renderer writes around a rate; `{w}` is not a symbol every reaction class registers")
                 continue
-            is_text = isinstance(parents.get(id(node)), ast.JoinedStr)      # a literal part of an f-string: certainly output text
-            used = {a.attr for t, _ in guards for a in ast.walk(t) if isinstance(a, ast.Attribute)}
-            for w in ids:
-                n += 1
-                key = f"{f.name}:`{w}` in {node.value.strip()[:24]!r}"
-                where = (TLOADER, node.lineno)
-                if w not in rdecl:
-                    if is_text:
-                        regs.judge(ctx, False, "R11", key + ":reactions", where, f"`{w}` is written by the renderer into the rate statements of EvalRates but is not a symbol every reaction class registers")
-                    elif w not in tdecl:
-                        ctx.unrec("R11", key + ":reactions", where, f"the string {node.value[:30]!r} may be text the renderer writes around a rate; `{w}` is not a symbol every reaction class registers")
-                    continue
-                if w in tdecl:
-                    ctx.ok("R11", key, where, f"`{w}` is declared wherever the rate statements are pasted")
-                    continue
-                known = {a: v for a, v in fixed.items() if a not in outside}
-                if any(_tri(t, known) is (not pol) for t, pol in guards):
-                    ctx.ok("R11", key, where, f"`{w}` is written only under a condition no thermal process satisfies ({', '.join(f'{a} = {v}' for a, v in sorted(known.items()))})")
-                    continue
-                hit = None
-                decided = bool(instances) and not (set(fed) & outside)
-                for f_, ln, vals in instances:
-                    ts = [_tri(t, {**known, **vals}) for t, pol in guards]
-                    if guards and all(v is not None and v == pol for v, (t, pol) in zip(ts, guards)):
-                        hit = hit or (f_, ln, vals)
-                    elif not any(v is not None and v != pol for v, (t, pol) in zip(ts, guards)):
-                        decided = False
-                if hit is not None:
-                    hit = (hit[0], hit[1], {a: v for a, v in hit[2].items() if a in used})
-                if not is_text and (hit is not None or not guards):
-                    ctx.unrec("R11", key, where, f"the string {node.value[:30]!r} may be text the renderer writes around the rate of a thermal process, whose functions do not declare `{w}`")
-                elif hit is not None or not guards:
+            if w in tdecl:
+                ctx.ok("R11", key, where, f"`{w}` is declared wherever the rate statements are pasted")
+                continue
+            known = {a: v for a, v in fixed.items() if a not in outside}
+            if any(_tri(t, known) is (not pol) for t, pol in guards):
+                ctx.ok("R11", key, where, f"`{w}` is written only under a condition no thermal process satisfies ({', '.join(f'{a} = {v}' for a, v in sorted(known.items()))})")
+                continue
+            hit = None
+            decided = bool(instances) and not (set(fed) & outside)
+            for f_, ln, vals in instances:
+                ts = [_tri(t, {**known, **vals}) for t, pol in guards]
+                if guards and all(v is not None and v == pol for v, (t, pol) in zip(ts, guards)):
+                    hit = hit or (f_, ln, vals)
+                elif not any(v is not None and v != pol for v, (t, pol) in zip(ts, guards)):
+                    decided = False
+            if hit is not None:
+                hit = (hit[0], hit[1], {a: v for a, v in hit[2].items() if a in used})
+            # positive evidence: every condition on the way to the text is read and holds for a thermal process of the package; or
+            # there is no condition at all on the way AND the renderer tests the window attributes nowhere
+            unconditional = not guards and not window_tests
+            if hit is not None or not guards:
+                if is_text and complete and (hit is not None or unconditional):
                     ctx.bad("R11", key, where, f"the renderer writes `{w}` into the rate statements" + (f" of the thermal process built at {hit[0]}:{hit[1]} ({hit[2]})" if hit else " of every process") +
                             f": EvalHeatingRates / EvalCoolingRates declare only what ThermalProcess registers ({sorted(x.text for x in regs['ThermalProcess'])}), `{w}` is undeclared there",
                             expected="thermal processes without the renderer's temperature window (temp_min = temp_max = -1.0), or the symbol registered by ThermalProcess",
                             found=f"{ast.unparse(guards[0][0])[:60]} holds for that process" if hit else "unconditional text")
-                elif decided:
-                    ctx.ok("R11", key, where, f"`{w}` is written only under a condition none of the {len(instances)} thermal processes of the package satisfies")
                 else:
-                    ctx.unrec("R11", key, where, f"`{w}` is written by the renderer under {[ast.unparse(t)[:50] for t, _ in guards]}: cannot tell whether a thermal process (whose functions do not declare `{w}`) can satisfy that")
+                    ctx.unrec("R11", key, where, f"the string {value[:30]!r} may be text the renderer writes around the rate of a thermal process, whose functions do not declare `{w}`"
+                              + ("" if guards else ": the condition under which it is written is not seen"))
+            elif decided:
+                ctx.ok("R11", key, where, f"`{w}` is written only under a condition none of the {len(instances)} thermal processes of the package satisfies")
+            else:
+                ctx.unrec("R11", key, where, f"`{w}` is written by the renderer under {[ast.unparse(t)[:50] for t, _ in guards]}: cannot tell whether a thermal process (whose functions do not declare `{w}`) can satisfy that")
     ctx.floor("R11", "identifiers written by the renderer around a rate", n, 2)
 
 
@@ -1518,4 +1783,45 @@ BENIGN = [
     {"name": "registrations-through-helper-handed-a-dict-table", "edits": [
         {"file": RR, "old": '        self.register("photon_desorption_option", (f"opt_uvd{group}", 1.0, vt.param))\n        self.register("H2_desorption_option", (f"opt_h2d{group}", 1.0, vt.param))\n', "new": '        self._register_rows(self._switches, group, vt.param)\n'},
         {"file": RR, "old": '    model = "rr07"\n', "new": '    model = "rr07"\n    _switches = {"photon_desorption_option": ("opt_uvd", 1.0), "H2_desorption_option": ("opt_h2d", 1.0)}\n\n    def _register_rows(self, rows, suffix, kind):\n        for name, (stem, default) in rows.items():\n            self.register(name, (f"{stem}{suffix}", default, kind))\n'}]},
+]
+
+# ---- wave 4: everyday spellings of the renderer's window text / the merge of the components' mappings / table-driven registrations
+_LT = '        ltranges = [f"Tgas>={r.temp_min}" if r.temp_min > 0 else "" for r in reactions]\n'
+_UT = '        utranges = [f"Tgas<{r.temp_max}" if r.temp_max > 0 else "" for r in reactions]\n'
+_AR = "    def _assign_rates(\n"
+_COLLECT = '    variables = OrderedDict()\n    for comp in complist:\n        var_dict = getattr(comp, var_type)\n        for key, value in var_dict.items():\n            variables[key] = value\n    return variables.items()\n'
+BENIGN += [
+    {"name": "renderer-window-helper-with-guard-clause", "edits": [
+        {"file": TLOADER, "old": _LT, "new": "        ltranges = [self._lower(r) for r in reactions]\n"},
+        {"file": TLOADER, "old": _AR, "new": '    @staticmethod\n    def _lower(r):\n        lo = r.temp_min\n        if lo <= 0:\n            return ""\n        return f"Tgas>={lo}"\n\n' + _AR}]},
+    {"name": "renderer-window-formatted-by-helper-guarded-by-caller", "edits": [
+        {"file": TLOADER, "old": _LT, "new": '        ltranges = [self._bound(">=", r.temp_min) if r.temp_min > 0 else "" for r in reactions]\n'},
+        {"file": TLOADER, "old": _UT, "new": '        utranges = [self._bound("<", r.temp_max) if r.temp_max > 0 else "" for r in reactions]\n'},
+        {"file": TLOADER, "old": _AR, "new": '    def _bound(self, op, value):\n        return f"Tgas{op}{value}"\n\n' + _AR}]},
+    {"name": "renderer-window-text-as-module-constant", "edits": [
+        {"file": TLOADER, "old": _LT, "new": '        ltranges = [_LOWER.format(r.temp_min) if r.temp_min > 0 else "" for r in reactions]\n'},
+        {"file": TLOADER, "old": "class TemplateLoader:\n", "new": '_LOWER = "Tgas>={}"\n\n\nclass TemplateLoader:\n'}]},
+    {"name": "renderer-window-bounds-appended-in-static-helper", "edits": [
+        {"file": TLOADER, "old": _LT + _UT, "new": ""},
+        {"file": TLOADER, "old": '        tranges = [\n            "".join([lt, " && " if lt and ut else "", ut])\n            for lt, ut in zip(ltranges, utranges)\n        ]\n', "new": "        tranges = [self._window(reac) for reac in reactions]\n"},
+        {"file": TLOADER, "old": _AR, "new": '    @staticmethod\n    def _window(reaction):\n        bounds = []\n        if reaction.temp_min > 0:\n            bounds.append(f"Tgas>={reaction.temp_min}")\n        if reaction.temp_max > 0:\n            bounds.append(f"Tgas<{reaction.temp_max}")\n        return " && ".join(bounds)\n\n' + _AR}]},
+    {"name": "thermal-process-window-chained-named-constant", "edits": [
+        {"file": TPROC, "old": "        self.temp_min = -1.0\n        self.temp_max = -1.0\n", "new": "        self.temp_min = self.temp_max = NO_LIMIT\n"},
+        {"file": TPROC, "old": "class ThermalProcess(Component):\n", "new": "NO_LIMIT = -1.0\n\n\nclass ThermalProcess(Component):\n"}]},
+    {"name": "collect-guard-clause-on-empty-list", "file": UTIL, "old": _COLLECT, "new": _COLLECT.replace("    for comp in complist:\n", "    if not complist:\n        return variables.items()\n    for comp in complist:\n")},
+    {"name": "collect-skips-empty-mappings", "file": UTIL, "old": _COLLECT, "new": _COLLECT.replace("        for key, value in var_dict.items():\n", "        if not var_dict:\n            continue\n        for key, value in var_dict.items():\n")},
+    {"name": "registrations-from-module-table-of-namedtuple-rows-with-method", "edits": [
+        {"file": RR, "old": '        self.register("photon_desorption_option", (f"opt_uvd{group}", 1.0, vt.param))\n        self.register("H2_desorption_option", (f"opt_h2d{group}", 1.0, vt.param))\n', "new": '        for row in _SWITCHES:\n            self.register(row.name, row.bind(group))\n'},
+        {"file": RR, "old": "class RR07Grain(Grain):\n", "new": 'class _Switch(NamedTuple):\n    name: str\n    symbol: str\n    value: float\n\n    def bind(self, suffix):\n        return (self.symbol.format(g=suffix), self.value, vt.param)\n\n\n'
+         '_SWITCHES = (\n    _Switch("photon_desorption_option", "opt_uvd{g}", 1.0),\n    _Switch("H2_desorption_option", "opt_h2d{g}", 1.0),\n)\n\n\nclass RR07Grain(Grain):\n'},
+        {"file": RR, "old": "from __future__ import annotations\n", "new": "from __future__ import annotations\nfrom typing import NamedTuple\n"}]},
+]
+MUTANTS += [
+    {"name": "renderer-window-written-unconditionally", "edits": [
+        {"file": TLOADER, "old": _LT, "new": '        ltranges = [f"Tgas>={r.temp_min}" for r in reactions]\n'},
+        {"file": TLOADER, "old": _UT, "new": '        utranges = [f"Tgas<{r.temp_max}" for r in reactions]\n'}], "rules": ["R11"]},
+    {"name": "renderer-window-helper-on-dust-temperature", "edits": [
+        {"file": TLOADER, "old": _LT, "new": "        ltranges = [self._lower(r) for r in reactions]\n"},
+        {"file": TLOADER, "old": _AR, "new": '    def _lower(self, r):\n        if r.temp_min <= 0:\n            return ""\n        return f"Tdust>={r.temp_min}"\n\n' + _AR}], "rules": ["R11"]},
+    {"name": "collect-skips-a-kind-of-component", "file": UTIL, "old": _COLLECT, "new": _COLLECT.replace("        var_dict = getattr(comp, var_type)\n", '        if comp.__class__.__name__ == "Grain":\n            continue\n        var_dict = getattr(comp, var_type)\n'), "rules": ["R5"]},
 ]
